@@ -278,6 +278,8 @@ impl FileHasher<'_> {
             HashFn::Sha3_512 => file_hash::<Sha3_512>(chunk, self.buf_len, progress),
         }?;
         self.store_hash(key, metadata, chunk.len, hash.clone());
+        #[cfg(fclones_verif)]
+        self.verif_store(chunk, key.is_some(), &hash);
         Ok(hash)
     }
 
@@ -377,6 +379,8 @@ impl FileHasher<'_> {
         }
 
         self.store_hash(key, metadata, hash.0, hash.1.clone());
+        #[cfg(fclones_verif)]
+        self.verif_store(chunk, key.is_some(), &hash.1);
         Ok(hash)
     }
 
@@ -411,6 +415,23 @@ impl FileHasher<'_> {
                     chunk.pos.0,
                     chunk.len.0,
                     hit
+                ),
+            );
+        }
+    }
+
+    /// Verification hook: one event per hash handed to the cache for storing.
+    #[cfg(fclones_verif)]
+    fn verif_store(&self, chunk: &FileChunk<'_>, cached: bool, hash: &FileHash) {
+        if cached && crate::verif::enabled() {
+            crate::verif::emit(
+                "CacheStore",
+                &format!(
+                    "\"path\":{},\"pos\":{},\"len\":{},\"hash\":\"{}\"",
+                    crate::verif::jpath(chunk.path),
+                    chunk.pos.0,
+                    chunk.len.0,
+                    hash
                 ),
             );
         }
